@@ -75,8 +75,31 @@ let model_obs (inp : string list) : string list option =
     Some [ "c32=" ^ b2s (checkLastNBitsUint32 x32 n); "c64=" ^ b2s (checkLastNBitsUint64 x n) ]
   | _ -> failwith ("bad case: " ^ String.concat " " inp)
 
+(* the same observables computed with the definitions regenerated from the Go source (Gen/NetGen.v) *)
+let gen_obs (inp : string list) : string list option =
+  match inp with
+  | ["pp"; tp; lp; tx; lx] ->
+    let p = { addr = ip_of_tok tp; plen = zi (int_of_string lp) }
+    and x = { addr = ip_of_tok tx; plen = zi (int_of_string lx) } in
+    let sn = match g_Prefix_GetSupernet p x with Some s -> tok_of_pfx s | None -> "NONE" in
+    Some [ "c=" ^ b2s (g_Prefix_Contains p x); "cr=" ^ b2s (g_Prefix_Contains x p); "e=" ^ b2s (g_Prefix_Equal p x);
+           "c4=" ^ b2s (g_Prefix_containsIPv4 p x); "c6=" ^ b2s (g_Prefix_containsIPv6 p x); "sn=" ^ sn;
+           "vp=" ^ b2s (g_Prefix_Valid p); "vx=" ^ b2s (g_Prefix_Valid x);
+           "bp=" ^ tok_of_ip (g_Prefix_BaseAddr p); "bx=" ^ tok_of_ip (g_Prefix_BaseAddr x);
+           "cmp=" ^ string_of_int (int_of_z (g_IP_Compare p.addr x.addr));
+           "cmpr=" ^ string_of_int (int_of_z (g_IP_Compare x.addr p.addr));
+           "ieq=" ^ b2s (g_IP_Equal p.addr x.addr) ]
+  | ["ab"; ta; n] ->
+    let a = ip_of_tok ta and n = zi (int_of_string n) in
+    Some [ "bit=" ^ b2s (g_IP_BitAtPosition a n); "ml=" ^ tok_of_ip (g_IP_MaskLastNBits a n) ]
+  | ["cl"; x; n] ->
+    let x = z_of_hex x and n = zi (int_of_string n) in
+    let x32 = wconv (zi 32) x in
+    Some [ "c32=" ^ b2s (g_checkLastNBitsUint32 x32 n); "c64=" ^ b2s (g_checkLastNBitsUint64 x n) ]
+  | _ -> None
+
 let () =
-  let compared = ref 0 and mism = ref 0 and skipped = ref 0 in
+  let compared = ref 0 and mism = ref 0 and skipped = ref 0 and gencmp = ref 0 in
   iter_trace Sys.argv.(1) (fun id inp obs ->
     if obs = ["PANIC"] then
       (incr mism; Printf.printf "CORR-MISMATCH case=%s impl panicked, model does not\n" id)
@@ -94,5 +117,14 @@ let () =
          | None -> ()
          | Some (m, i) ->
            incr mism;
-           Printf.printf "CORR-MISMATCH case=%s input=%s model:%s impl:%s\n" id (String.concat " " inp) m i));
-  Printf.printf "STATS compared=%d mismatches=%d skipped_outside_parse_model=%d\n" !compared !mism !skipped
+           Printf.printf "CORR-MISMATCH case=%s input=%s model:%s impl:%s\n" id (String.concat " " inp) m i);
+        (match gen_obs inp with
+         | None -> ()
+         | Some go ->
+           incr gencmp;
+           (match first_diff 0 go obs with
+            | None -> ()
+            | Some (m, i) ->
+              incr mism;
+              Printf.printf "CORR-MISMATCH case=%s input=%s generated-model:%s impl:%s\n" id (String.concat " " inp) m i)));
+  Printf.printf "STATS compared=%d mismatches=%d skipped_outside_parse_model=%d generated_model_compared=%d\n" !compared !mism !skipped !gencmp
